@@ -563,15 +563,23 @@ mutual
           execPasses f (names.map fun n => [(lv, .str n)]) (some (withVarOf wc, i)) body s1
 end
 
-/-- routine definitions are collected from the whole script before it runs (the loader moves
-them out of line), wherever at top level or inside blocks they appear -/
-def collect : Block → List (String × Routine)
-  | .nil => []
-  | .cons (.defRoutine n ps body) rest => (n, ⟨ps, body⟩) :: collect rest
-  | .cons (.ite _ t (some e)) rest => collect t ++ collect e ++ collect rest
-  | .cons (.ite _ t none) rest => collect t ++ collect rest
-  | .cons (.repeat_ _ body) rest => collect body ++ collect rest
-  | .cons _ rest => collect rest
+mutual
+  /-- routine definitions are collected from the whole script before it runs (the loader moves
+  them out of line), wherever they appear: at top level, inside `if` / `repeat` bodies, inside the
+  bodies of matrix blocks -/
+  def collect : Block → List (String × Routine)
+    | .nil => []
+    | .cons (.defRoutine n ps body) rest => (n, ⟨ps, body⟩) :: collect rest
+    | .cons (.ite _ t (some e)) rest => collect t ++ collect e ++ collect rest
+    | .cons (.ite _ t none) rest => collect t ++ collect rest
+    | .cons (.repeat_ _ body) rest => collect body ++ collect rest
+    | .cons (.action _ ops) rest => collectOps ops ++ collect rest
+    | .cons _ rest => collect rest
+  def collectOps : Operands → List (String × Routine)
+    | .nil => []
+    | .cons (.matrixBlock _ body) rest => collect body ++ collectOps rest
+    | .cons _ rest => collectOps rest
+end
 
 def run (fuel : Nat) (prog : Block) (lights : List Light) : Outcome × S :=
   let s0 : S := { vm := Vm.init lights, routines := (collect prog).reverse }
